@@ -35,6 +35,26 @@ def run(tier, seed, workers):
                         if c.get('evals') % 5000 == 1:
                             c.sample({'contract': bid + 'X' * dbl, 'vul': vul, 'declarer': decl, 'tricks': tricks,
                                       'score': got})
+    # the same domain once more with a FRESH Contract object for every call (as a caller that scores board after board does) and the
+    # declarer varying fastest: anything remembered from the previous call - by value or by object identity - meets a different side
+    for bid in BIDS:
+        level, denom = int(bid[0]), bid[1:]
+        for dbl in (0, 1, 2):
+            for tricks in range(14):
+                for vul in adapt.VULS:
+                    for decl in adapt.SEATS:
+                        exp = R.duplicate_score(level, denom, dbl, R.side_vulnerable(vul, decl), tricks)
+                        try:
+                            got = calc_score(adapt.mk_contract(bid, dbl, vul, decl), tricks)
+                        except Exception as e:  # noqa
+                            got = f'raised {type(e).__name__}: {e}'
+                        c.inc('evals')
+                        c.inc('fresh_contract_calls')
+                        if got != exp:
+                            c.violate(f'score-fresh-object:{bid}:{dbl}:{vul}:{decl}:{tricks}',
+                                      f'calc_score(a fresh Contract {bid} dbl={dbl} vul={vul} declarer={decl}, tricks={tricks}) = {got}, duplicate table says {exp} '
+                                      f'(call number {c.get("fresh_contract_calls")} of a board-after-board sequence)',
+                                      {'kind': 'score-seq', 'upto': c.get('fresh_contract_calls')})
     # passed-out contracts (both encodings), every vulnerability, every trick count, with and without a declarer
     for fb in (None, Bid.Pass):
         for vul in adapt.VULS:
@@ -67,6 +87,20 @@ def run(tier, seed, workers):
 
 
 def replay(d):
+    if d['kind'] == 'score-seq':
+        n = 0
+        for bid in BIDS:
+            for dbl in (0, 1, 2):
+                for tricks in range(14):
+                    for vul in adapt.VULS:
+                        for decl in adapt.SEATS:
+                            exp = R.duplicate_score(int(bid[0]), bid[1:], dbl, R.side_vulnerable(vul, decl), tricks)
+                            got = calc_score(adapt.mk_contract(bid, dbl, vul, decl), tricks)
+                            n += 1
+                            if got != exp:
+                                return True, f'call {n} of the sequence: calc_score({bid} dbl={dbl} vul={vul} declarer={decl}, {tricks}) = {got}, expected {exp}'
+                            if n >= d['upto']:
+                                return False, 'sequence replayed without a wrong score'
     if d['kind'] == 'score':
         if d.get('ordinal'):
             # first in the original order of the enumeration up to this input (a failure may depend on the calls made before it:
